@@ -67,6 +67,24 @@ fn main() {
                 println!("SELFTEST-FAILED {e}");
                 std::process::exit(2);
             }
+            // odd shards run with a logger installed at Trace level (arguments of the library's log macros are
+            // evaluated only then), even shards without one, like the library's own tests
+            if shard % 2 == 1 {
+                struct Sink;
+                impl log::Log for Sink {
+                    fn enabled(&self, _: &log::Metadata) -> bool {
+                        true
+                    }
+                    fn log(&self, r: &log::Record) {
+                        let _ = format!("{}", r.args());
+                    }
+                    fn flush(&self) {}
+                }
+                static SINK: Sink = Sink;
+                let _ = log::set_logger(&SINK);
+                log::set_max_level(log::LevelFilter::Trace);
+                ctx.notes.push("logger installed at Trace level".into());
+            }
             props::run(&mut ctx);
             let out = get("out", "/dev/stdout");
             let js = ctx.to_json();
